@@ -365,7 +365,11 @@ func NewWALDecoder(rd io.Reader) *WALDecoder {
 func (dec *WALDecoder) Decode() (*TimedWALMessage, error) {
 	b := make([]byte, 4)
 
-	_, err := dec.rd.Read(b)
+	// NOTE: io.ReadFull returns io.EOF only if no bytes were read at all. A
+	// stream that ends inside a record (even inside the 4 checksum bytes) is
+	// reported as io.ErrUnexpectedEOF and hence as data corruption, so that a
+	// torn tail is repaired before new records are appended behind it.
+	_, err := io.ReadFull(dec.rd, b)
 	if errors.Is(err, io.EOF) {
 		return nil, err
 	}
@@ -375,7 +379,7 @@ func (dec *WALDecoder) Decode() (*TimedWALMessage, error) {
 	crc := binary.BigEndian.Uint32(b)
 
 	b = make([]byte, 4)
-	_, err = dec.rd.Read(b)
+	_, err = io.ReadFull(dec.rd, b)
 	if err != nil {
 		return nil, DataCorruptionError{fmt.Errorf("failed to read length: %v", err)}
 	}
@@ -389,7 +393,7 @@ func (dec *WALDecoder) Decode() (*TimedWALMessage, error) {
 	}
 
 	data := make([]byte, length)
-	n, err := dec.rd.Read(data)
+	n, err := io.ReadFull(dec.rd, data)
 	if err != nil {
 		return nil, DataCorruptionError{fmt.Errorf("failed to read data: %v (read: %d, wanted: %d)", err, n, length)}
 	}
